@@ -82,6 +82,11 @@ def h_info(ctx, n, rho):
         return False
     with stubs_installed(ctx, 'first') as st:
         Y = teneva.cross(orc, Y0, nswp=2, dr_min=0, dr_max=0, info=info, I_vld=I_vld, y_vld=y_vld, cb=cb)
+    # "the tensor of the previous sweep" of the first sweep is the initial approximation itself
+    ctx.claim('first_previous_tensor_is_the_initial_one', ctx.all_eq(ref_full(olds[0]), ref_full(Y0)))
+    with stubs_installed(ctx, 'first'):
+        Yz = teneva.cross(Oracle(ctx, target=T), Y0, nswp=0, dr_min=0, dr_max=0, info={})
+    ctx.claim('no_sweep_returns_the_initial_tensor', ctx.all_eq(ref_full(Yz), ref_full(Y0)))
     d2 = sum(((ref_get(Y, tuple(i)) - y_vld[j]) ** 2 for j, i in enumerate(I_vld)), 0)
     ctx.claim('e_vld_is_error_of_result', ctx.eq(info['e_vld'] * info['e_vld'] * sumsq(y_vld), d2))
     if st is not None:
